@@ -297,7 +297,7 @@ Section Conv.
     \/ ((forall i l b, o = Commit i -> nth_error ls i = Some l -> committed k l = Some b -> H b <> d)
         /\ forall x, alookup (sstore s) d = Some x -> alookup (sstore (step k ls s o)) d = Some x).
   Proof.
-    intros k ls s o d. destruct o as [i|i|i]; simpl.
+    intros k ls s o d. destruct o as [i|i|i|rk]; simpl.
     - right. split; [intros; discriminate|]. intros x E.
       destruct k; try assumption. destruct (nth_error ls i) as [l|]; [|assumption].
       destruct (mt_comp (l_mt l)); [|assumption]. simpl. apply commit_nolabel_keeps. assumption.
@@ -318,6 +318,7 @@ Section Conv.
       destruct (nth_error ls i) as [l|]; [|assumption].
       destruct (is_ext k); [|assumption]. destruct (out_mt k (l_mt l)); [|assumption].
       destruct (committed k l); assumption.
+    - right. split; [intros; discriminate|]. intros x E. assumption.
   Qed.
 
   Lemma exec_app : forall k ls s a b, exec k ls s (a ++ b) = exec k ls (exec k ls s a) b.
@@ -345,13 +346,14 @@ Section Conv.
   (* ---- the shared map under every schedule ---- *)
   Lemma step_smap : forall k ls s o, smap (step k ls s o) = assign (smap s) (map_event k ls o).
   Proof.
-    intros k ls s o. destruct o as [i|i|i]; simpl.
+    intros k ls s o. destruct o as [i|i|i|rk]; simpl.
     - destruct k; try reflexivity. destruct (nth_error ls i) as [l|]; [|reflexivity].
       destruct (mt_comp (l_mt l)); reflexivity.
     - destruct (nth_error ls i) as [l|]; [|reflexivity]. destruct (committed k l); reflexivity.
     - destruct (nth_error ls i) as [l|]; [|reflexivity].
       destruct (is_ext k); [|reflexivity]. destruct (out_mt k (l_mt l)); [|reflexivity].
       destruct (committed k l); reflexivity.
+    - reflexivity.
   Qed.
 
   Lemma exec_smap : forall k ls os s, smap (exec k ls s os) = assign (smap s) (map_events k ls os).
@@ -366,7 +368,7 @@ Section Conv.
     In (d, t) (map_events k ls os) <-> exists b, records_to k ls os d b /\ t = etoc b.
   Proof.
     intros k ls os d t. unfold map_events. rewrite in_flat_map. split.
-    - intros (o & I & E). destruct o as [i|i|i]; simpl in E; try contradiction.
+    - intros (o & I & E). destruct o as [i|i|i|rk]; simpl in E; try contradiction.
       destruct (nth_error ls i) as [l|] eqn:NL; [|contradiction].
       destruct (is_ext k) eqn:X; [|contradiction].
       destruct (out_mt k (l_mt l)) as [m|] eqn:M; [|contradiction].
@@ -442,6 +444,55 @@ Section Conv.
     rewrite !exec_smap. apply assign_perm; [exact ND|].
     unfold map_events. apply Permutation_flat_map. exact P.
   Qed.
+  (* ---- finalize calls inside a schedule ---- *)
+  Local Notation fin_outputs := (fin_outputs H len payload etoc).
+
+  Lemma fin_outputs_app : forall k ls a b s,
+    fin_outputs k ls s (a ++ b) = fin_outputs k ls s a ++ fin_outputs k ls (exec k ls s a) b.
+  Proof.
+    intros k ls a. induction a as [|o a IH]; intros b s; simpl; [reflexivity|].
+    rewrite IH. rewrite app_assoc. reflexivity.
+  Qed.
+
+  (* a finalize call, failed or not, consumes nothing: the schedule continues as if it had not happened *)
+  Lemma finalize_is_read_only : forall k ls os1 rk os2 s,
+    exec k ls s (os1 ++ Finalize rk :: os2) = exec k ls s (os1 ++ os2).
+  Proof. intros. rewrite !exec_app. reflexivity. Qed.
+
+  Lemma records_to_app : forall k ls os1 os2 d b, records_to k ls os1 d b -> records_to k ls (os1 ++ os2) d b.
+  Proof.
+    intros k ls os1 os2 d b (i & l & I & R). exists i, l. split; [apply in_or_app; left; exact I|exact R].
+  Qed.
+
+  (* every finalize call of a schedule (the 1st, 2nd, ... one; after failed ones; with further conversions in between):
+     it returns an error iff the reference does not parse, otherwise the image of the map as recorded SO FAR, which serves
+     every layer digest recorded before the call *)
+  Lemma every_finalize : forall k ls os1 rk os2 st0 d,
+    smap st0 = [] ->
+    let img := finalize (smap (exec k ls st0 os1)) in
+    fin_outputs k ls st0 (os1 ++ Finalize rk :: os2)
+      = fin_outputs k ls st0 os1 ++ (if rk then Some img else None) :: fin_outputs k ls (exec k ls st0 os1) os2
+    /\ NoDup (map fst img)
+    /\ ((exists b, records_to k ls os1 d b) -> exists b, records_to k ls os1 d b /\ fetch img d = Some (etoc b))
+    /\ (forall t, In (d, t) img -> exists b, records_to k ls os1 d b /\ t = etoc b).
+  Proof.
+    intros k ls os1 rk os2 st0 d E0 img. split.
+    - rewrite fin_outputs_app. simpl. reflexivity.
+    - exact (toc_map_any_schedule k ls os1 st0 d E0).
+  Qed.
+
+  (* accumulation: a layer digest served by the image of one finalize call is served by every later one *)
+  Lemma finalize_accumulates : forall k ls os1 os2 st0 d,
+    smap st0 = [] ->
+    (exists b, records_to k ls os1 d b) ->
+    exists b, records_to k ls (os1 ++ os2) d b
+              /\ fetch (finalize (smap (exec k ls st0 (os1 ++ os2)))) d = Some (etoc b).
+  Proof.
+    intros k ls os1 os2 st0 d E0 [b R].
+    destruct (toc_map_any_schedule k ls (os1 ++ os2) st0 d E0) as (_ & F & _).
+    apply F. exists b. apply records_to_app. exact R.
+  Qed.
+
   (* ---- end to end, for the layer whose conversion returned descriptor d ---- *)
   Lemma end_to_end : forall k ls os st0 i l d,
     nth_error ls i = Some l -> convert k l = Some d -> In (Commit i) os ->
